@@ -1067,6 +1067,14 @@ func solveUnit(res *UnitResult, opt Options) {
 				o.Res.Seconds += spent
 				spent = o.Res.Seconds
 			}
+			if o.Res.Verdict == "unknown" && quant && opt.NeedAgree > 1 {
+				// thorough tier: the cheap variants of the quick tier's second step, so that the deeper search is a
+				// superset of the quick one (they are skipped above because the full race goes first here)
+				fs := u.scriptFocused(o)
+				_ = try(ginstScriptLevel(script, true, true, 0), " +ground-instances/uf/light", false) ||
+					(fs != "" && try(ginstScriptLevel(fs, true, true, 0), " +focused+ground-instances/uf/light", false)) ||
+					(fs != "" && try(ginstScriptOpt(fs, true, true), " +focused+ground-instances/uf", false))
+			}
 			if o.Res.Verdict == "unknown" && quant {
 				if !try(ginstScriptOpt(script, true, true), " +ground-instances/uf", false) && !try(ginstScript(script, true), " +ground-instances", false) && !try(ginstScript(script, false), " +instances", false) {
 					if fs := u.scriptFocused(o); fs != "" {
